@@ -843,7 +843,7 @@ func runC14(c *core.Ctx) {
 				}
 			}
 			n := len(lay.ref)
-			all := !c.Quick() && n <= 4000 && cfg.Pool != "file"
+			all := !c.Quick() && n <= 2500 && cfg.Pool != "file" && (cfg.Buf == 0 || cfg.Buf == 7)
 			stride := c.N(97, 23)
 			if cfg.Pool == "file" {
 				stride = c.N(211, 61)
